@@ -50,6 +50,7 @@ type Req struct {
 	FailNames   []string   `json:"failnames,omitempty"` // walk: the callback fails at every node with one of these names
 	PreDoc      string     `json:"predoc,omitempty"`    // mkdir/verify in a worker-owned jail: directories made (simple mode) before the call
 	NodeIdx     int        `json:"nodeidx,omitempty"`   // From-Root: operate on the k-th node in pre-order instead of the root (-1: nil)
+	PreLoose    bool       `json:"preloose,omitempty"`  // a failing pre-mkdir is not a harness failure: the call meets whatever it left (equally named roots: the first block's tree)
 	PreOps      []string   `json:"preops,omitempty"`    // From-Root: operations performed on the same tree first ("output", "walk", "walkiter", "json", "massive-output", "mkdir-elsewhere", "dry-color")
 	JailIn      string     `json:"jailin,omitempty"`    // (set by the worker for Par) the jail of this request, instead of a fresh temporary directory
 	RelJail     bool       `json:"reljail,omitempty"`   // ... and its targets are handed over RELATIVE to the current directory (the jail's parent)
